@@ -351,7 +351,7 @@ func (f *Frame) invoke(i *ssa.Call, c *ssa.CallCommon, recv Val, args []Val, rea
 		if ct := f.en.cs.Funcs[key]; ct != nil && ct.Trusted {
 			ctx := &SpecCtx{f: f, fn: f.fn, params: f.params, heap: h, old: h, binds: map[string]Val{"self": recv}, result: &res, pkg: pkgOf(f.fn), callArgs: args}
 			for _, en := range ct.Ensures {
-				f.vc.assume(implies(reach, ctx.evalBool(en.E)))
+				f.vc.assume(implies(reach, f.vc.assumedClause(ctx, en.E)))
 			}
 			return res, reach
 		}
@@ -477,10 +477,10 @@ func (f *Frame) applyContract(callee *ssa.Function, ct *FuncContract, args []Val
 	}
 	post := &SpecCtx{f: f, fn: callee, params: args, heap: h, old: entry, binds: ctx.binds, result: &res, pkg: ctx.pkg}
 	for _, en := range f.en.activeClauses(ct.Ensures, ct) {
-		vc.assume(implies(reach, post.evalBool(en.E)))
+		vc.assume(implies(reach, vc.assumedClause(post, en.E)))
 	}
 	for _, en := range f.en.activeClauses(ct.Assumes, ct) {
-		vc.assume(implies(reach, post.evalBool(en.E)))
+		vc.assume(implies(reach, vc.assumedClause(post, en.E)))
 		vc.assumed = append(vc.assumed, "assumed postcondition of "+ct.Key+" (not proved): "+en.Src)
 	}
 	return res, reach
